@@ -4,7 +4,7 @@ suite (must equal the baseline), run the property's quick check against the scra
 With --keep a confirmed change is stored under /verif/seeded/<P>-<m>/ (patch.diff, demo.py, meta.json)."""
 import json, os, shutil, subprocess, sys, time
 V = os.path.dirname(os.path.dirname(os.path.abspath(__file__)))
-EV = '/tmp/wt/eval'
+EV = os.environ.get('TRYSEED_EV', '/tmp/wt/eval')
 
 
 def sh(cmd, **kw):
@@ -22,7 +22,7 @@ def ensure_eval():
 
 def run_check(prop, root):
     env = dict(os.environ, PYG_BASE_REPO=root)
-    p = subprocess.run('/venv/bin/python -W ignore sa/run.py %s --tier quick' % prop, shell=True, capture_output=True, text=True, cwd=V, env=env)
+    p = subprocess.run('/venv/bin/python -W ignore sa/run.py %s --tier quick --no-evidence' % prop, shell=True, capture_output=True, text=True, cwd=V, env=env)
     viol = [l for l in p.stdout.split('\n') if l.startswith('VIOLATION') or l.startswith('ANALYSIS-ERROR') or l.strip().startswith('rule ')]
     return p.returncode, viol, p.stdout
 
